@@ -419,6 +419,7 @@ func linearRounds(r *vf.Run) {
 	close(ch)
 	wg.Wait()
 	r.Count("linear_delays_injected_at_storage_hook_points", int(atomic.LoadInt64(&linDelays)))
+	r.Floor("linear_delays_injected_at_storage_hook_points", int(atomic.LoadInt64(&linDelays)), n*20)
 	r.Floor("linear_rounds", int(r.Counter("linear_rounds")), n*8/10)
 	r.Floor("linear_verifies_accepted", int(r.Counter("linear_verifies_accepted")), n)
 	r.Floor("linear_verifies_refused", int(r.Counter("linear_verifies_refused")), n)
